@@ -416,6 +416,60 @@ def key_lifecycle_suite(world, pool, tier, rng):
     return metas
 
 
+def long_inputs_suite(world, pool, tier, rng):
+    """C14/C07/C02: error reporting and verdicts must not depend on how long the offending text is.
+    Header alg names, token segments and JWK members of every length across the sizes of the
+    library's fixed message buffers (256 bytes) and well beyond."""
+    metas = []
+    thorough = tier == "thorough"
+    items = load_pool_keys(world, pool)
+    world.op("ck 0 new", tag="cfg")
+    world.op("ck 1 new", tag="cfg")
+    world.op("ck 1 setkey %d %d %d" % ((K.ALG_ORD["HS256"],) + items["oct32"]), tag="cfg")
+    lens = sorted(set(list(range(1, 20)) + list(range(180, 300)) + [300, 400, 511, 512, 513, 767, 768, 1000, 1023, 1024, 1025, 4096, 20000]
+                      + ([rng.randrange(20, 180) for _ in range(20)] if not thorough else list(range(20, 180)) + list(range(300, 1100)))))
+    pay = seg({"sub": "x"})
+    for n in lens:
+        for base in (b"", b"none", b"HS256", b"RS256"):
+            name = base + b"x" * n
+            h = seg(b'{"alg":"' + name + b'"}')
+            for ck in (0, 1):
+                tok = h + b"." + pay + b"."
+                if ck == 1:
+                    tok += hs_sig(K.ALG_ORD["HS256"], pool.keys["oct32"].k, h + b"." + pay)
+                metas.append((len(world.ops), {"kind": "verify", "mut": "alg header of %d characters (%s + %d)" % (len(name), base.decode() or "-", n),
+                                               "may_accept": False, "must_accept": False, "cfg": ck}))
+                world.op("ck %d verify %s" % (ck, hx(tok)), tag="verify")
+    # long members in JWKs: every item is flagged with a message or usable
+    slot = 960
+    jw = []
+    for n in lens:
+        if n > 5000:
+            continue
+        v = "y" * n
+        jw += [{"kty": v}, {"kty": "OKP", "crv": v, "x": "AAAA"}, {"kty": "EC", "crv": v, "x": "AAAA", "y": "AAAA"},
+               {"kty": "oct", "k": "", "kid": v}, {"kty": "RSA", "n": "AQAB", "e": "AQAB", "alg": v}]
+    if not thorough:
+        jw = jw[::3] + [j for j in jw if 200 <= len(next(iter(sorted(j.values(), key=len, reverse=True)))) <= 270]
+    for j in jw:
+        world.op("jwks %d del" % slot, cmp=False, tag="cfg")
+        world.load_doc(slot, json.dumps(j).encode(), "strn", tag="load")
+        metas.append((len(world.ops), {"kind": "item", "doc": json.dumps(j)[:60] + "...", "longest": max(len(str(x)) for x in j.values())}))
+        world.op("jwks %d item 0" % slot, tag="item")
+    return metas
+
+
+def falsify_long_inputs(m, out, eo=None):
+    if m["kind"] == "item":
+        f = dict(t.split("=", 1) for t in out.split() if "=" in t)
+        if f.get("err") == "1" and f.get("emsg") != "1":
+            return "JWK item flagged as errored with an EMPTY message (longest member %d characters): %s" % (m["longest"], m["doc"])
+        if f.get("err") == "0" and f.get("emsg") == "1":
+            return "JWK item carries a message without the error flag: %s" % m["doc"]
+        return None
+    return falsify_accept(m, out, eo)
+
+
 # =====================================================================================
 # C04: claims
 # =====================================================================================
@@ -561,8 +615,9 @@ def token_bytes(world, pool, tier, rng):
         if cname.endswith("+claims"):       # every claim check the checker has is switched on
             for which in ("iss", "sub", "aud"):
                 world.op("ck %d claimset %s %s" % (ci, which, hx(b"a")), tag="cfg")
-            world.op("ck %d leeway exp 0" % ci, tag="cfg")
-            world.op("ck %d leeway nbf 0" % ci, tag="cfg")
+            lw = 0 if kname else 60          # the unkeyed one with a leeway, so that claim +- leeway arithmetic meets extreme integers
+            world.op("ck %d leeway exp %d" % (ci, lw), tag="cfg")
+            world.op("ck %d leeway nbf %d" % (ci, lw), tag="cfg")
     toks = []
     alpha = b"AQew-_.=eyJ9"
     # exhaustive short strings over a 6-symbol alphabet
@@ -575,7 +630,8 @@ def token_bytes(world, pool, tier, rng):
     valid_p = [seg({}), seg({"exp": 1}), seg(b"[]"), seg(b"1"), seg(b'{"a":"\\u0000"}'), seg(b"{"), b"", b"e30", b"e30==", b"!!!!"]
     # every registered claim with a value of every JSON type
     for cl in ("iss", "sub", "aud", "exp", "nbf", "iat", "jti"):
-        for v in (b'"a"', b'"b"', b'""', b"42", b"-1", b"1.5", b"true", b"false", b"null", b"[]", b'["a"]', b'["a","b"]', b"{}", b'{"a":"a"}', b"99999999999"):
+        for v in (b'"a"', b'"b"', b'""', b"42", b"-1", b"1.5", b"true", b"false", b"null", b"[]", b'["a"]', b'["a","b"]', b"{}", b'{"a":"a"}', b"99999999999",
+                  b"9223372036854775807", b"-9223372036854775808", b"9223372036854775800", b"-9223372036854775800"):
             for pl in (seg(b'{"' + cl.encode() + b'":' + v + b"}"), seg(b'{"iss":"a","sub":"a","aud":"a","' + cl.encode() + b'":' + v + b"}")):
                 toks.append(valid_h[0] + b"." + pl + b".")
                 toks.append(valid_h[1] + b"." + pl + b".AAAA")
@@ -814,6 +870,48 @@ def callbacks_suite(world, pool, tier, rng):
     return metas
 
 
+def callback_admission_suite(world, pool, tier, rng):
+    """C19 (admission clause): what a callback leaves in config->key / config->alg is admitted by the same
+    table as jwt_checker_setkey -- also when the callback keeps the key that setkey installed and only
+    writes the algorithm (e.g. copies it from the token header), re-installs the very same item, or
+    reads the configuration first."""
+    metas = []
+    s = 700
+    for name, key in pool.keys.items():
+        adm = key.admissible_algs()
+        fam = [a for a in ALG_NAMES if a in FAMILY and FAMILY[a] == key.kty]
+        for attr in [None] + adm[:2]:
+            it = world.add_key(s, key, private=(key.kind == "oct"), alg_attr=attr)
+            s += 1
+            attr_ord = 0 if attr is None else K.ALG_ORD[attr]
+            cands = [0] + [K.ALG_ORD[a] for a in fam[:4]] + [K.ALG_ORD["HS256" if key.kty != "oct" else "RS256"]]
+            for b in cands:
+                for style in ("alg-only", "same-key+alg", "getalg+alg"):
+                    prog = {"alg-only": "alg:%d" % b, "same-key+alg": "key:%d:%d,alg:%d" % (it + (b,)), "getalg+alg": "getalg,alg:%d" % b}[style]
+                    admitted = (b != 0) if attr_ord == 0 else (b == 0 or b == attr_ord)
+                    pinned = b or attr_ord
+                    for h in sorted(set([x for x in (attr, K.ORD_ALG.get(b)) if x] + adm[:2])):
+                        msg = seg({"alg": h, "typ": "JWT"}) + b"." + seg({"sub": "adm"})
+                        sg = pool.sign(name, h, msg) if usable(key, h) else None
+                        if sg is None:
+                            continue
+                        world.op("ck 0 new", tag="cfg")
+                        if attr_ord or style != "alg-only":
+                            # install the key first where setkey admits it (alg none + key with attribute); otherwise the callback installs it
+                            pass
+                        installed = attr_ord != 0
+                        if installed:
+                            world.op("ck 0 setkey 0 %d %d" % it, tag="cfg")
+                        p2 = prog if (installed or style == "same-key+alg") else "key:%d:%d,%s" % (it + (prog,))
+                        world.op("ck 0 setcb " + p2, tag="cfg")
+                        ok = admitted and K.ALG_ORD[h] == pinned
+                        metas.append((len(world.ops), {"kind": "verify", "key": name, "attr": attr, "cb": p2, "hdr": h,
+                                                       "mut": "callback leaves alg %s with a key whose alg attribute is %s" % (K.ORD_ALG.get(b, b), attr),
+                                                       "may_accept": True if ok else False, "must_accept": ok}))
+                        world.op("ck 0 verify " + hx(msg + b"." + sg), tag="verify")
+    return metas
+
+
 def falsify_reuse(m, out, eo):
     c = c14_contract(out)
     if c:
@@ -982,16 +1080,27 @@ def setget_suite(world, pool, tier, rng):
     for si, s in enumerate(cbseqs):
         which = "h" if si % 2 == 0 else "c"
         s = s[:6]
+        # the first operations go to the builder itself, the rest run inside the callback on the per-token
+        # object, which starts as a copy of the builder's map; afterwards the builder must still hold exactly
+        # what it was given directly (a write to the token's map is not a write to the builder's)
+        k = (len(s) // 2) if si % 3 else 0
         world.op("bl 1 new", tag="cfg")
         world.op("bl 1 iat 0", tag="cfg")
-        prog = ",".join(_step(which, op) for op in s) + ",%sget:json:-" % which
+        mb = PS.PyMap()
+        for op in s[:k]:
+            _py_apply(mb, op)
+            world.op(_line("bl 1", which, op), tag="cfg")
+        prog = ",".join(_step(which, op) for op in s[k:]) + ",%sget:json:-" % which
         if len(prog) > 3500:
             continue
         world.op("bl 1 setcb " + prog, tag="cfg")
-        m = PS.PyMap()
-        wants = ["alg=0 key=0"] + [_py_apply(m, op) for op in s] + [PS.show_get("json", 0, m.d)]
+        m = mb.copy()
+        wants = ["alg=0 key=0"] + [_py_apply(m, op) for op in s[k:]] + [PS.show_get("json", 0, m.d)]
         metas.append((len(world.ops), {"kind": "cbobs", "want": ";".join(wants), "on": "jwt_t-" + which, "prog": prog[:100]}))
         world.op("bl 1 gen", tag="gen")
+        metas.append((len(world.ops), {"kind": "setget", "op": "builder map after a callback worked on the token's copy (%s)" % prog[:60],
+                                       "want": PS.show_get("json", 0, mb.d), "on": "builder-" + which}))
+        world.op("bl 1 %sget json -" % which, tag="setget")
     return metas
 
 
@@ -1085,12 +1194,17 @@ def builder_suite(world, pool, tier, rng):
             b"null", "é".encode(), b"a\"b\\c", b"https://example.com/x?y=z&w"]
     ints = ["0", "1", "-1", "5000", str(2 ** 31), str(2 ** 53 + 1), str(2 ** 63 - 1), str(-(2 ** 63))]
     jsons = [b'["a","b"]', b'{"k":null}', b"[]", b"{}", b'[1,2.5,{"z":[]}]']
+    # signature lengths of every residue mod 3 (32, 48, 64 octets): the unpadded form differs in its last characters
+    it64 = world.add_key(72, K.Key("oct", k=os.urandom(64), bits=512), private=True, alg_attr=None)
     for ci in range(4000 if tier == "thorough" else 400):
         world.op("bl 0 new", tag="cfg")
         b = PS.PyBuilder()
-        if ci % 4 != 3:
+        if ci % 4 == 0:
             world.op("bl 0 setkey 0 %d %d" % it, tag="cfg")
             b.alg = "HS256"
+        elif ci % 4 != 3:
+            b.alg = ("HS384", "HS512", "HS384")[ci % 3]
+            world.op("bl 0 setkey %d %d %d" % ((K.ALG_ORD[b.alg],) + it64), tag="cfg")
         if ci % 5 == 0:
             world.op("bl 0 iat 0", tag="cfg")
             b.iat = False
@@ -1221,6 +1335,9 @@ def roundtrip_suite(world, pool, tier, rng):
                 simple = i >= per_key
                 claims = {"n": i} if simple else {"d": rand_tree(rng), "n": i}
                 hdr = {} if simple else {"x": rand_tree(rng, 3)}
+                if not simple and i % 2:
+                    # registered header names with values of any JSON type: the builder was told this, the token must say it
+                    hdr[rng.choice(["typ", "cty", "kid", "crit"])] = rand_tree(rng, 4)
                 world.op("prov name " + hx(p_sign.encode()), tag="cfg")
                 world.op("bl 0 new", tag="cfg")
                 world.op("bl 0 setkey %d %d %d" % ((a,) + priv), tag="cfg")
@@ -1234,7 +1351,8 @@ def roundtrip_suite(world, pool, tier, rng):
                 if i % 3 == 0:
                     exp_claims["nbf"] = 5001
                 exp_hdr = dict(hdr)
-                exp_hdr.update({"alg": alg, "typ": "JWT"})
+                exp_hdr["alg"] = alg                      # forced
+                exp_hdr.setdefault("typ", "JWT")          # defaulted only when the application did not set one (any JSON type)
                 metas.append((len(world.ops), {"kind": "gen", "hdr": JL.jenc(exp_hdr), "pay": JL.jenc(exp_claims), "alg": alg, "now": 5000,
                                                "seq": "%s/%s sign=%s" % (name, alg, p_sign), "prog": None}))
                 world.op("bl 0 gen", tag="gen")
@@ -1644,13 +1762,17 @@ def falsify_jwk_import(m, out, eo=None, _orc=[None]):
             # every number of the private key, not only what a signature exercises (OpenSSL silently falls back
             # from a wrong CRT set to the plain exponentiation, so a signature does not show transposed members)
             nums = K.rsa_private_numbers(pem)
-            want = (key.n, key.e, key.d, key.p, key.q, key.dp, key.dq, key.qi)
             if nums is None:
                 return "PEM of the imported private %s key is not a PKCS#8/PKCS#1 RSA private key" % m["key"]
-            if nums != want:
-                names = ("n", "e", "d", "p", "q", "dp", "dq", "qi")
-                diff = [nm for nm, a_, b_ in zip(names, nums, want) if a_ != b_]
-                return "imported RSA private key differs from the JWK in %s (JWK members reached the wrong numbers of the key)" % ",".join(diff)
+            n_, e_, d_, p_, q_, dp_, dq_, qi_ = nums
+            if (n_, e_, d_) != (key.n, key.e, key.d):
+                return "imported RSA private key has another n, e or d than the JWK"
+            if p_ or q_ or dp_ or dq_ or qi_:
+                # whatever CRT representation the import keeps must be a consistent one for this key
+                if p_ * q_ != n_ or dp_ != d_ % (p_ - 1) or dq_ != d_ % (q_ - 1) or (qi_ * q_) % p_ != 1:
+                    bad = [nm for nm, ok_ in (("p*q=n", p_ * q_ == n_), ("dp=d mod p-1", p_ > 1 and dp_ == d_ % (p_ - 1)),
+                                              ("dq=d mod q-1", q_ > 1 and dq_ == d_ % (q_ - 1)), ("qi*q=1 mod p", p_ > 0 and (qi_ * q_) % p_ == 1)) if not ok_]
+                    return "imported RSA private key carries CRT numbers that do not belong together (%s): JWK members reached the wrong numbers of the key" % ", ".join(bad)
         if m["private"]:
             sig = orc.sign(kid, alg, b"probe")
             pub = orc.add_key(key.pem(False))
